@@ -12,6 +12,10 @@
 //!   empirical.mean / empirical.variance - <xs L..>  -> option token
 //!   empirical.err  - <xs L..> <ys L..>              -> `<err>`
 //!   empirical.range - <xs L..>                      -> `<min> <max>`
+//!   empirical.queries - <ctor> <xs L..> <qs L..>    -> `L<k> cdf(q)… <mean opt> <variance opt> <min> <max>`
+//!                       ctor ∈ new (Empirical::new(xs)) | from_params (Parameterized::from_params on a parameter object whose
+//!                       public `xs` is exactly the given, possibly unsorted, vector) | roundtrip (from_params(new(xs).emit_params()))
+//!   empirical.draws   - <ctor> <xs L..> <words L..> -> `L<k> draw…`  one `draw` per word, from `Xoshiro256Plus::seed_from_u64(word)` (implementation only)
 //!   mardia         - <n> <d> <row-major data L..>   -> `<pa> <pb>`
 //!   c20.child      - <any other line…>              -> runs the rest of the line in a CHILD harness process and reports its
 //!                                                       answer, or `ABORT` if the child died by a signal (stack overflow of `mpow` at n = 0)
@@ -68,6 +72,21 @@ fn child(line: &str) -> String {
         return "ABORT".to_string();
     }
     String::from_utf8_lossy(&out.stdout).trim().to_string()
+}
+
+/// the three public ways to an `Empirical`
+fn empirical_of(ctor: &str, xs: Vec<f64>) -> Empirical {
+    match ctor {
+        "new" => Empirical::new(xs),
+        "from_params" => {
+            // `EmpiricalParameters` is not re-exported: obtain one from `emit_params` and overwrite its public field
+            let mut p = Empirical::new(vec![0.0]).emit_params();
+            p.xs = xs;
+            Empirical::from_params(p)
+        }
+        "roundtrip" => Empirical::from_params(Empirical::new(xs).emit_params()),
+        _ => panic!("wire: bad ctor {ctor}"),
+    }
 }
 
 fn two_sample(xs: &[f64], ys: &[f64], mode: KsMode, alt: KsAlternative) -> String {
@@ -154,6 +173,32 @@ pub fn dispatch(op: &str, _kind: &str, a: &mut Args) -> Option<String> {
             let e = Empirical::new(xs);
             let r = e.range();
             format!("{} {}", tok(&r.0), tok(&r.1))
+        }
+        "empirical.queries" => {
+            let ctor = a.tag();
+            let xs = a.list(|a| a.f());
+            let qs = a.list(|a| a.f());
+            let e = empirical_of(&ctor, xs);
+            let cdfs: Vec<f64> = qs.iter().map(|q| e.cdf(q)).collect();
+            let m: Option<f64> = e.mean();
+            let v: Option<f64> = e.variance();
+            let r = e.range();
+            format!("{} {} {} {} {}", tok(&cdfs), tok(&m), tok(&v), tok(&r.0), tok(&r.1))
+        }
+        "empirical.draws" => {
+            let ctor = a.tag();
+            let xs = a.list(|a| a.f());
+            let words = a.words();
+            let e = empirical_of(&ctor, xs);
+            let ds: Vec<f64> = words
+                .iter()
+                .map(|w| {
+                    use rand::SeedableRng;
+                    let mut rng = rand_xoshiro::Xoshiro256Plus::seed_from_u64(*w);
+                    e.draw(&mut rng)
+                })
+                .collect();
+            tok(&ds)
         }
         "mardia" => {
             let n = a.n() as usize;
